@@ -83,3 +83,57 @@ def run_block(stmts, env: dict | None = None) -> dict:
         elif isinstance(s, ast.AnnAssign) and isinstance(s.target, ast.Name) and s.value is not None:
             env[s.target.id] = resolved(s.value, env)
     return env
+
+
+def _assigned_names(stmt) -> set:
+    out = set()
+    for n in ast.walk(stmt):
+        if isinstance(n, ast.Name) and isinstance(n.ctx, ast.Store):
+            out.add(n.id)
+        if isinstance(n, (ast.FunctionDef, ast.ClassDef)):
+            out.add(n.name)
+    return out
+
+
+def env_at(node: ast.AST, func: ast.AST, keep_params: bool = True) -> dict:
+    """Resolution environment that holds just before ``node`` executes inside ``func``:
+    straight-line assignments on the path from the function entry are applied in order; names
+    assigned inside preceding compound statements (if / for / while / with / try) are dropped
+    (their value depends on the path); parameters are never substituted (API names)."""
+    chain = []
+    child, p = node, getattr(node, "_parent", None)
+    while p is not None and child is not func:
+        for field in ("body", "orelse", "finalbody", "handlers"):
+            block = getattr(p, field, None)
+            if isinstance(block, list) and any(child is s for s in block):
+                idx = [i for i, s in enumerate(block) if s is child][0]
+                chain.append(block[:idx])
+                break
+        child, p = p, getattr(p, "_parent", None)
+    params = set()
+    if keep_params and isinstance(func, (ast.FunctionDef, ast.Lambda)):
+        a = func.args
+        params = {x.arg for x in [*a.posonlyargs, *a.args, *a.kwonlyargs]}
+        if a.vararg:
+            params.add(a.vararg.arg)
+        if a.kwarg:
+            params.add(a.kwarg.arg)
+    env: dict = {}
+    for stmts in reversed(chain):
+        for s in stmts:
+            if isinstance(s, (ast.If, ast.For, ast.While, ast.With, ast.Try, ast.Match)):
+                for nm in _assigned_names(s):
+                    env.pop(nm, None)
+                continue
+            if isinstance(s, (ast.FunctionDef, ast.ClassDef)):
+                env.pop(s.name, None)
+                continue
+            before = dict(env)
+            env = run_block([s], env)
+            for nm in list(env):
+                if nm in params:
+                    # a reassigned parameter keeps its name (but invalidates what was derived from the old value)
+                    env.pop(nm)
+            if isinstance(s, ast.AugAssign) and isinstance(s.target, ast.Name):
+                env.pop(s.target.id, None)
+    return env
